@@ -560,6 +560,21 @@ def _r3(repo: Repo, L: Ledger):
             if isinstance(n, ast.Attribute) and is_name(n.value, "self"):
                 free.add("self." + n.attr)
         L.check(not free, "R3", inst, "memoised function depends on its arguments only", f"memoised function reads {sorted(free)}: results cached from one invocation leak into the next", f.loc())
+        # ... and on nothing outside the process either: a memoised function that reads files returns, for an unchanged
+        # argument, what the file held when it was first read
+        io_site = None
+        for g in repo.reachable_from([f], include_properties=True).values():
+            for c in repo.calls_in(g):
+                d_ = dotted(c.func) or ""
+                if d_ in ("open", "io.open", "os.stat", "os.path.getmtime", "os.path.exists") or (isinstance(c.func, ast.Attribute) and c.func.attr in ("open", "read_text", "read_bytes", "stat", "exists", "is_file")):
+                    io_site = io_site or (g, c)
+        if io_site is not None:
+            g_, c_ = io_site
+            L.fail(
+                "R3", inst + ":reads-files",
+                f"memoised function {f.short} reads the file system ({g_.short}: '{norm(c_)[:40]}'): for the same argument a later invocation in the same process gets the result computed from the file's earlier content",
+                f.loc(), witness={"history": "run on genome.agp; edit genome.agp; run again in the same process"},
+            )
         if f.name == "__new__" and f.cls is not None:
             # shared instances: fields written only in __init__, from its arguments (idempotent for equal keys)
             init = f.cls.methods.get("__init__")
